@@ -118,6 +118,12 @@ pub fn now_us() -> u64 {
     embassy_time::Instant::now().as_micros()
 }
 
+static SEQ: std::sync::atomic::AtomicUsize = std::sync::atomic::AtomicUsize::new(0);
+/// One global order for everything the harness observes (datagrams put on the wire, application events).
+pub fn next_seq() -> usize {
+    SEQ.fetch_add(1, Ordering::SeqCst)
+}
+
 // ---------------------------------------------------------------- flag waker
 
 pub struct Flag(pub AtomicBool);
@@ -155,6 +161,8 @@ pub struct NodeQ {
 #[derive(Clone, Debug)]
 pub struct Dgram {
     pub id: usize,
+    /// position in the global order of observable events (see `next_seq`)
+    pub seq: usize,
     pub src: usize,
     pub dst: usize,
     pub data: Vec<u8>,
@@ -213,7 +221,7 @@ impl NetworkSend for Tx {
         let mut n = self.0.borrow_mut();
         let id = n.next_id;
         n.next_id += 1;
-        let d = Dgram { id, src: self.1, dst: idx(&a), data: data.to_vec(), t_ms: now_ms() };
+        let d = Dgram { id, seq: next_seq(), src: self.1, dst: idx(&a), data: data.to_vec(), t_ms: now_ms() };
         n.tap.push(d.clone());
         n.wire.push_back(d);
         Ok(())
